@@ -343,22 +343,62 @@ Qed.
 Lemma all_descriptors_wf : forallb wf_fmt all_descriptors = true.
 Proof. vm_compute. reflexivity. Qed.
 
-(* F8: StrandForkRecord::from_payload_bytes sorts the writer heads it read, so a payload whose
-   heads are in descending order is accepted and re-encodes to different bytes *)
+(* StrandForkRecord (DESIGN F8, fixed in /repo): the decoder rejects writer heads that are not in
+   canonical order, so accepted payloads re-encode identically *)
+Lemma bytes_eqb_eq x y : bytes_eqb x y = true -> x = y.
+Proof. unfold bytes_eqb. destruct (list_eq_dec N.eq_dec x y); [auto|discriminate]. Qed.
+
+Section FvalInd.
+  Variable P : fval -> Prop.
+  Hypothesis HU : forall n, P (XU n).
+  Hypothesis HRaw : forall b, P (XRaw b).
+  Hypothesis HUnit : P XUnit.
+  Hypothesis HNone : P XNone.
+  Hypothesis HSome : forall v, P v -> P (XSome v).
+  Hypothesis HBytes : forall b, P (XBytes b).
+  Hypothesis HVec : forall l, Forall P l -> P (XVec l).
+  Hypothesis HSeq : forall l, Forall P l -> P (XSeq l).
+  Hypothesis HEnum : forall c v, P v -> P (XEnum c v).
+  Fixpoint fval_ind' (v : fval) : P v :=
+    match v with
+    | XU n => HU n | XRaw b => HRaw b | XUnit => HUnit | XNone => HNone
+    | XSome x => HSome x (fval_ind' x) | XBytes b => HBytes b
+    | XVec l => HVec l ((fix go (l : list fval) : Forall P l :=
+                           match l with [] => Forall_nil _ | x :: r => Forall_cons _ (fval_ind' x) (go r) end) l)
+    | XSeq l => HSeq l ((fix go (l : list fval) : Forall P l :=
+                           match l with [] => Forall_nil _ | x :: r => Forall_cons _ (fval_ind' x) (go r) end) l)
+    | XEnum c x => HEnum c x (fval_ind' x)
+    end.
+End FvalInd.
+
+Lemma fval_eqb_eq : forall a b, fval_eqb a b = true -> a = b.
+Proof.
+  induction a using fval_ind'; intros y E; destruct y; cbn [fval_eqb] in E; try discriminate.
+  - apply N.eqb_eq in E. congruence.
+  - apply bytes_eqb_eq in E. congruence.
+  - reflexivity.
+  - reflexivity.
+  - f_equal. auto.
+  - apply bytes_eqb_eq in E. congruence.
+  - f_equal. revert l0 E. induction H as [|x l Hx HF IH]; intros [|y m] E; try discriminate; [reflexivity|].
+    apply andb_true_iff in E as [E1 E2]. f_equal; auto.
+  - f_equal. revert l0 E. induction H as [|x l Hx HF IH]; intros [|y m] E; try discriminate; [reflexivity|].
+    apply andb_true_iff in E as [E1 E2]. f_equal; auto.
+  - apply andb_true_iff in E as [E1 E2]. apply N.eqb_eq in E1. f_equal; auto.
+Qed.
+
+Theorem strand_fork_canonical_core b v :
+  wf_bytes b = true -> strand_fork_dec b = Some v -> strand_fork_enc v = Some b.
+Proof.
+  intros W H. unfold strand_fork_dec in H. destruct (dec_top d_strand_fork b) as [v'|] eqn:E; [|discriminate].
+  destruct (fval_eqb (canonicalize_fork v') v') eqn:Q; [|discriminate]. inversion H; subst v'.
+  unfold strand_fork_enc. rewrite (fval_eqb_eq _ _ Q). apply fmt_canonical_top; auto.
+Qed.
+
+(* the pre-fix witness (heads in descending order) is now rejected *)
 Definition fork_witness : bytes :=
   repeat 0 96 ++ le_bytes 8 7 ++ repeat 0 96 ++ le_bytes 8 2 ++ repeat 1 64 ++ repeat 0 64 ++ repeat 0 64 ++ [0].
 
-Definition fork_witness_value : fval :=
-  Eval vm_compute in (match strand_fork_dec fork_witness with Some v => v | None => XUnit end).
-
-Lemma strand_fork_refuted :
-  exists b v, wf_bytes b = true /\ strand_fork_dec b = Some v /\ strand_fork_enc v <> Some b.
-Proof.
-  exists fork_witness, fork_witness_value. split; [vm_compute; reflexivity|]. split; [vm_compute; reflexivity|].
-  intros H.
-  assert (K : match strand_fork_enc fork_witness_value with
-              | Some b' => if list_eq_dec N.eq_dec b' fork_witness then true else false
-              | None => false
-              end = false) by (vm_compute; reflexivity).
-  rewrite H in K. destruct (list_eq_dec N.eq_dec fork_witness fork_witness); [discriminate|contradiction].
-Qed.
+Lemma fork_witness_rejected :
+  wf_bytes fork_witness = true /\ dec_top d_strand_fork fork_witness <> None /\ strand_fork_dec fork_witness = None.
+Proof. split; [vm_compute; reflexivity|]. split; [vm_compute; discriminate|vm_compute; reflexivity]. Qed.
